@@ -102,7 +102,7 @@ FAMILIES = {
 }
 
 
-def job_general(job, family, maxlen, terminals=('a', 'b'), nsym=None):
+def job_general(job, family, maxlen, terminals=('a', 'b'), nsym=None, history=False):
     from gambatools.cfg_algorithms import cfg_accepts_word
     from .cfg_sym import sym_cfg, entries_json, GrammarSem
     job.functions('cfg_algorithms', ['cfg_accepts_word', 'cfg_to_chomsky', 'cfg_cyk_matrix', 'cfg_remove_epsilon_rules_in_place',
@@ -123,7 +123,24 @@ def job_general(job, family, maxlen, terminals=('a', 'b'), nsym=None):
     acc = {}
     for w in words:
         acc[w] = job.call(cfg_accepts_word, G, w, replay=('cyk', {'G': dec, 'word': w}))
+    acc2 = {}
+    if history:
+        # call history: the same rules with another start variable, asked right after the first grammar (hidden state that is
+        # keyed on the rules alone would answer with the first grammar's language), then the first grammar again
+        import gambatools.cfg as C
+        G2 = C.CFG(G.V, G.Sigma, G.R, C.Variable(variables[1]))
+        dec2 = lambda mv: dict(dec(mv), S=variables[1])
+        for w in words:
+            acc2[(1, w)] = job.call(cfg_accepts_word, G2, w, replay=('cyk_history', {'G': dec, 'second_start': variables[1], 'word': w}))
+        for w in words:
+            acc2[(0, w)] = job.call(cfg_accepts_word, G, w, replay=('cyk_history', {'G': dec, 'second_start': variables[1], 'word': w}))
     job.lifted()
+    for (which, w), r in acc2.items():
+        if r is None:
+            continue
+        sem = GrammarSem(entries, variables, w)
+        job.oblige('after other calls: cfg_accepts_word(G with start %s, %r) iff that start variable derives it' % (variables[which], w),
+                   d.iff(E.lit(r), sem.derives(variables[which])) ^ 1, replay=('cyk_history', {'G': dec, 'second_start': variables[1], 'word': w}))
     ncfg = c.native('cfg_algorithms')
     job.differential(15, lambda mv: {w: c.conc(acc[w], mv) for w in words},
                      lambda mv: (lambda Gn: {w: ncfg.cfg_accepts_word(Gn, w) for w in words})(nat.mk_cfg(dec(mv), c.native('cfg'))), 'cfg_accepts_word')
@@ -193,6 +210,8 @@ def jobs(tier):
             pairs=[['A', 'BC'], ['AB', 'C'], ['A', 'C'], ['C', 'C']])
         for fam in FAMILIES:
             add('general_%s_L2' % fam, job_general, family=fam, maxlen=2, nsym=4 if fam == 'long' else 6, timeout=600)
+        add('general_history_eps_unit', job_general, family='eps_unit', maxlen=2, nsym=5, history=True, timeout=600)
+        add('general_history_three_vars', job_general, family='three_vars', maxlen=2, nsym=5, history=True, timeout=600)
     else:
         add('cyk_cnf_3vars_L4', job_cyk, variables=['S', 'A', 'B'], terminals=['a', 'b'], maxlen=4, timeout=3000)
         add('cyk_cnf_multichar_names_L3', job_cyk, variables=['S', 'A', 'AB', 'B'], terminals=['a', 'b'], maxlen=3, timeout=3000)
@@ -230,4 +249,25 @@ def _replay_cyk(rp):
     return bool(problems), {'grammar': str(nat.mk_cfg(js)), 'problems': problems[:4]}
 
 
-REPLAY = {'cyk': _replay_cyk}
+def _replay_cyk_history(rp):
+    """the three-call history of the job in one native process: G (start S), same rules with the second start variable, G again"""
+    from gambatools.cfg_algorithms import cfg_accepts_word
+    js = rp['G']
+    js2 = dict(js, S=rp['second_start'])
+    words = nat.words_upto(js['Sigma'], max(len(rp['word']), 1))
+    problems = []
+    for j in (js, js2, js):
+        G = nat.mk_cfg(j)
+        for w in words:
+            try:
+                got = cfg_accepts_word(G, w)
+            except Exception as e:
+                problems.append('start %s: cfg_accepts_word(%r) raised %r' % (j['S'], w, e))
+                continue
+            ref = nat.ref_cfg_accepts(j, w)
+            if got is not ref:
+                problems.append('start %s (after earlier calls): cfg_accepts_word(%r) = %r, reference %r' % (j['S'], w, got, ref))
+    return bool(problems), {'problems': problems[:6]}
+
+
+REPLAY = {'cyk_history': _replay_cyk_history, 'cyk': _replay_cyk}
